@@ -176,21 +176,23 @@ def _bspline_job(k):
         return {"k": k, "bad": [], "case": {"ncp": ncp, "skipped": True}}
     vals = {"twist_cp": 3.7, "chord_cp": 1.3, "xshear_cp": 0.4, "yshear_cp": -0.2, "zshear_cp": 0.6, "t_over_c_cp": 0.11}
     s = tube_surface(mesh, 0.35, sym=sym)
-    for kk, v in vals.items():
-        s[kk] = np.full(ncp, v)
+    # every distribution has its OWN number of control points (the counts of two distributions of one group are independent)
+    ncp2 = min(1 + (k // 2 + 3) % 6, mesh.shape[1])
+    for j, (kk, v) in enumerate(vals.items()):
+        s[kk] = np.full(ncp if j % 2 == 0 else ncp2, v)
     out, prob = run_comp(Geometry(surface=s), {}, None, keep=True)
     bad = []
     for nm, v in (("twist", 3.7), ("chord", 1.3), ("xshear", 0.4), ("yshear", -0.2), ("zshear", 0.6), ("t_over_c", 0.11)):
         arr = np.array(prob.get_val(nm))
         if not (float(np.max(np.abs(arr - v))) <= 1e-12 * abs(v)):
             bad.append("bspline:%s:ncp%d" % (nm, ncp))
-    s2 = tube_surface(mesh, 0.35, sym=sym, thickness_cp=np.full(ncp, 0.023), radius_cp=np.full(ncp, 0.31))
+    s2 = tube_surface(mesh, 0.35, sym=sym, thickness_cp=np.full(ncp, 0.023), radius_cp=np.full(ncp2, 0.31))
     o2 = run_comp(TubeGroup(surface=s2), {}, ["thickness", "radius"])
     for nm, v in (("thickness", 0.023), ("radius", 0.31)):
         if not (float(np.max(np.abs(o2[nm] - v))) <= 1e-12 * v):
             bad.append("bspline:%s:ncp%d" % (nm, ncp))
     ux, uy, lx, ly = B.wingbox_airfoil()
-    s3 = tube_surface(mesh, 0.35, sym=sym, fem_model_type="wingbox", data_x_upper=ux, data_y_upper=uy, data_x_lower=lx, data_y_lower=ly, spar_thickness_cp=np.full(ncp, 0.007), skin_thickness_cp=np.full(ncp, 0.013), original_wingbox_airfoil_t_over_c=0.12, t_over_c_cp=np.array([0.12]))
+    s3 = tube_surface(mesh, 0.35, sym=sym, fem_model_type="wingbox", data_x_upper=ux, data_y_upper=uy, data_x_lower=lx, data_y_lower=ly, spar_thickness_cp=np.full(ncp, 0.007), skin_thickness_cp=np.full(ncp2, 0.013), original_wingbox_airfoil_t_over_c=0.12, t_over_c_cp=np.array([0.12]))
     o3 = run_comp(WingboxGroup(surface=s3), {"mesh": mesh, "t_over_c": np.full(mesh.shape[1] - 1, 0.12)}, ["spar_thickness", "skin_thickness"])
     for nm, v in (("spar_thickness", 0.007), ("skin_thickness", 0.013)):
         if not (float(np.max(np.abs(o3[nm] - v))) <= 1e-12 * v):
@@ -215,7 +217,7 @@ def _bspline_job(k):
         for nm in res[0]:
             if not (float(np.max(np.abs(res[0][nm] - res[1][nm]))) <= 1e-12 * float(np.max(np.abs(res[0][nm])))):
                 bad.append("bspline:depends_on_y_position:%s" % nm)
-    return {"k": k, "bad": bad, "case": {"ncp": ncp, "sym": sym, "ny": int(mesh.shape[1])}}
+    return {"k": k, "bad": bad, "case": {"ncp": ncp, "ncp_other": ncp2, "sym": sym, "ny": int(mesh.shape[1])}}
 
 
 def run(tier, only=None):
